@@ -421,14 +421,16 @@ impl RowIdSequence {
                     let mut holes_passed = 0;
                     ranges.extend(GroupingIterator::new(unsafe { ids.into_addr_iter() }.map(
                         |addr| {
-                            let offset_no_holes = addr - range.start + offset_start;
-                            while bitmap_iter_pos < offset_no_holes {
+                            // The bitmap is indexed by the position inside this segment;
+                            // `offset_start` (rows in earlier segments) must not be counted.
+                            let position_in_segment = addr - range.start;
+                            while bitmap_iter_pos < position_in_segment {
                                 if !bitmap_iter.next().unwrap() {
                                     holes_passed += 1;
                                 }
                                 bitmap_iter_pos += 1;
                             }
-                            offset_no_holes - holes_passed
+                            position_in_segment + offset_start - holes_passed
                         },
                     )));
                 }
